@@ -50,6 +50,7 @@ class Unit:
         self.records = {}
         self.lib = {}
         self.flags = []
+        self.abstract_mul = False
         self.timeout = 300
         self.prelude = ''
         self.functions = []
@@ -172,6 +173,10 @@ def parse(path):
                 u.opaque.append(words[1])
             elif d == 'flags':
                 u.flags += words[1:]
+            elif d == 'abstractmul':
+                # products of two non-constant size_t values are an uninterpreted function (sound abstraction; the unit
+                # states the instances of distributivity it needs as axioms)
+                u.abstract_mul = True
             elif d == 'timeout':
                 u.timeout = int(words[1])
             elif d == 'trusted':
